@@ -16,7 +16,10 @@
 //
 //  2. strace runs (child process, fewer): the harness re-executes itself in
 //     -child mode to perform ONE operation (Opener.OpenFile sequence, core.Scan,
-//     core.Transition) under `strace -f -v -e trace=%file,getdents64,close`;
+//     core.Transition - also with EXDEV injected into the rename, so that the
+//     cross-device copy runs - or a whole cycle through two real local
+//     endpoints: Scan, Stage with stageFromRoot, Supply, Transition) under
+//     `strace -f -v -e trace=%file,getdents64,close`;
 //     the system calls between two marker calls are handed to the Coq side
 //     verbatim, which (a) checks every one of them is a confined primitive
 //     (check_C17) and (b) replays the model's program for that operation
@@ -215,7 +218,7 @@ func stage(st *staging.Stager, path string, content []byte) []byte {
 // CanaryCase is the replay form of a canary run: everything derives from the
 // seed.
 type CanaryCase struct {
-	Seed int64 `json:"seed"`
+	Seed int64  `json:"seed"`
 	Kind string `json:"kind"`
 }
 
@@ -537,8 +540,9 @@ func pathArg(arg string) string {
 }
 
 // observations renders the calls between the markers as Coq terms.
-func observations(log *stracelog.Log, keep func(path string) bool) (terms []string, count int, tags []string) {
+func observations(log *stracelog.Log, keep func(path string) int) (terms []string, count int, tags []string) {
 	inside := false
+	skipFds := map[int]bool{}
 	var pendingFd = -1
 	var pendingNames []string
 	flush := func() {
@@ -563,14 +567,46 @@ func observations(log *stracelog.Log, keep func(path string) bool) (terms []stri
 		if !inside || r.Name == "???" {
 			continue
 		}
-		// calls by absolute path outside the test area (the Mutagen data
-		// directory, /proc, ...) are not about the root
-		if keep != nil && len(r.Args) >= 2 && r.Args[0] == "AT_FDCWD" {
-			if p := pathArg(r.Args[1]); strings.HasPrefix(p, "/") && !keep(p) {
-				if r.Name != "renameat" && r.Name != "renameat2" {
-					continue
+		// Endpoint runs only: calls about OTHER places than the root under test
+		// are not part of the observation: absolute paths outside the test
+		// area (the Mutagen data directory, the other endpoint's root), and
+		// everything relative to a descriptor opened by such a path or by a
+		// path inside the staging directory (os.RemoveAll's housekeeping there).
+		if keep != nil {
+			fdOf := func(a string) int {
+				if n, err := strconv.Atoi(a); err == nil {
+					return n
 				}
-				if len(r.Args) >= 4 && r.Args[2] == "AT_FDCWD" && !keep(pathArg(r.Args[3])) {
+				return -1
+			}
+			if r.Name == "close" && len(r.Args) >= 1 {
+				delete(skipFds, fdOf(r.Args[0]))
+			} else if r.Name == "getdents64" && len(r.Args) >= 1 && skipFds[fdOf(r.Args[0])] {
+				continue
+			} else if len(r.Args) >= 2 {
+				drop := false
+				markOnly := false
+				first := r.Args[0]
+				pathIdx := 1
+				if r.Name == "symlinkat" && len(r.Args) >= 3 {
+					first, pathIdx = r.Args[1], 2
+				}
+				if first == "AT_FDCWD" {
+					if p := pathArg(r.Args[pathIdx]); strings.HasPrefix(p, "/") {
+						switch keep(p) {
+						case 0:
+							drop = true
+						case 2:
+							markOnly = true
+						}
+					}
+				} else if skipFds[fdOf(first)] {
+					drop = true
+				}
+				if (drop || markOnly) && r.Name == "openat" && !r.Failed() {
+					skipFds[fdOf(r.Ret)] = true
+				}
+				if drop {
 					continue
 				}
 			}
@@ -904,7 +940,7 @@ func runStrace(c StraceCase) straceOut {
 		if len(parts) > 1 && parts[1] == "replaced" {
 			spec.Replace = []string{"d", "k"}
 		}
-		stagingForCase = filepath.Join(dataDir, "staging", "sync_verifconfine_beta")
+		stagingForCase = filepath.Join(dataDir, "staging", "sync_verifconfine-beta")
 		op = "OpNone"
 	default:
 		panic("unknown scenario " + c.Scenario)
@@ -926,10 +962,20 @@ func runStrace(c StraceCase) straceOut {
 	if len(res.Log.Unparsed) > 0 {
 		panic("unparsed strace lines: " + strings.Join(res.Log.Unparsed, " | "))
 	}
-	var keep func(string) bool
+	// 0 = not about the root under test, 1 = keep, 2 = keep the call but not
+	// what happens on the descriptor it returns (inside the staging directory)
+	var keep func(string) int
 	if spec.Op == "endpoint" {
-		keep = func(p string) bool {
-			return strings.HasPrefix(p, a.Dir+"/") || p == a.Dir || strings.HasPrefix(p, stagingForCase+"/") || p == stagingForCase
+		keep = func(p string) int {
+			switch {
+			case p == spec.Source || strings.HasPrefix(p, spec.Source+"/"):
+				return 0
+			case p == stagingForCase || strings.HasPrefix(p, stagingForCase+"/"):
+				return 2
+			case p == a.Dir || strings.HasPrefix(p, a.Dir+"/"):
+				return 1
+			}
+			return 0
 		}
 	}
 	terms, n, tags := observations(res.Log, keep)
